@@ -145,11 +145,11 @@ def task_setters():
     col.default_replay = replay_survey
     col.function('surveys.Survey._set_nf_re')
     res = []
-    for name in ('noise_floor', 'relative_error'):
+    for name, explicit in itertools.product(('noise_floor', 'relative_error'), (False, True)):
         for kind in ('none', 'scalarsym', 'array', 'str'):
-            def mk(ctx, name=name, kind=kind):
+            def mk(ctx, name=name, kind=kind, explicit=explicit):
                 ctx.opts['getattr_hook'] = ds_hook
-                sv, ds = mk_survey('scalar', 'scalar', False)
+                sv, ds = mk_survey('scalar', 'scalar', explicit)
                 val = {'none': None, 'scalarsym': cx.NDArr(cx.Store('given-value')), 'array': cx.NDArr(cx.Store('given-value')),
                        'str': 'data._' + name}[kind]
                 return [name, val], {}, dict(__self__=sv, ds=ds, val=val, name=name, kind=kind, before=snapshot(ds))
@@ -175,6 +175,19 @@ def task_setters():
             return a == 'data._' + name and isinstance(da, cx.DArr) and da.store is not v.store
         return True       # size-1 input: stored as float attribute
     clause(col, 'scalar_stays_an_attribute__array_is_broadcast_into_a_fresh_DataArray', res, stored)
+
+    def others_kept(r):
+        # frame: setting one noise parameter touches neither the other one nor an explicitly set standard deviation
+        if r.outcome != 'return':
+            return None
+        ds, name, before = r.state['ds'], r.state['name'], r.state['before']
+        other = 'relative_error' if name == 'noise_floor' else 'noise_floor'
+        items, attrs = ds.fields['__items__'], ds.fields['attrs']
+        ok = attrs.get(other) is before['attrs'].get(other) or attrs.get(other) == before['attrs'].get(other)
+        for k in ('_' + other, 'standard_deviation', 'observed'):
+            ok = ok and ((k in items) == (k in before['objs'])) and (k not in items or (items[k] is before['objs'][k] and items[k].store.version == before['vers'][k]))
+        return ok
+    clause(col, 'setting_one_noise_parameter_leaves_the_other_and_an_explicit_standard_deviation_untouched', res, others_kept)
     # standard_deviation setter
     fnode, mod, cname = cx.Interp(cx.Ctx([]), 'surveys').find_setter(cx.Obj('Survey', {}, mod='surveys'), 'standard_deviation')
     rs = []
